@@ -59,7 +59,7 @@ def mkCatalog (zs : List ZoneEntry) : Catalog.Cat Unit :=
   (zs.zipIdx.foldl (fun (c : Catalog.Cat Unit) (p : ZoneEntry × Nat) =>
     (Catalog.insert c ⟨p.1.apex.labels, p.1.cls, p.1.kind, p.2, ()⟩).1) Catalog.Cat.empty)
 
-/-! ### processing monad: writer state + `ProcessingError` -/
+/-! ### processing monad: writer state + ghost log + `ProcessingError` -/
 
 /-- `ProcessingError` -/
 inductive PErr | servFail | truncation
@@ -70,7 +70,38 @@ def PErr.ofWriter : WriterErr → PErr
   | .Truncation => .truncation
   | _ => .servFail
 
-abbrev PM (α : Type) := State → Out PErr α × State
+/-- ghost: one `add_{answer,authority,additional}_{rr,rrset}` call of the answer phase and how it
+    ended. `optional` = issued inside `execute_allowing_truncation`. (`ttl` is the value handed
+    over; hints are not recorded: they change octets, never records.) -/
+structure AddEv where
+  sec : RrSection
+  owner : WName
+  ty : Nat
+  cls : Nat
+  ttl : Nat
+  rdatas : List (List UInt8)
+  optional : Bool
+  res : Out WriterErr Unit
+  deriving Repr, DecidableEq, Inhabited
+
+/-- ghost: the writer operations of the answer phase, in order -/
+inductive Ev where
+  | add (e : AddEv)
+  | aa (b : Bool)
+  | rcode (r : Nat)
+  | tc (b : Bool)
+  | clear
+  | bad                      -- a header operation failed or panicked (never happens: C01)
+  deriving Repr, DecidableEq, Inhabited
+
+/-- the state of the answer phase: the writer and the ghost operation log. The log is written,
+    never read: `PS.w` evolves exactly as the writer alone would (`srv` stays byte-exact). -/
+structure PS where
+  w : State
+  log : List Ev := []
+  deriving Inhabited
+
+abbrev PM (α : Type) := PS → Out PErr α × PS
 
 namespace PM
 @[inline] def pure {α} (a : α) : PM α := fun s => (.ok a, s)
@@ -84,14 +115,18 @@ instance : Monad PM where
   bind := PM.bind
 def fail {α} (e : PErr) : PM α := fun s => (.err e, s)
 def panic {α} : PM α := fun s => (.panic, s)
-/-- `writer_call()?` inside a `ProcessingResult` function -/
-def liftW {α} (m : M α) : PM α := fun s =>
-  match m s with
-  | (.ok a, s') => (.ok a, s')
-  | (.err e, s') => (.err (PErr.ofWriter e), s')
-  | (.panic, s') => (.panic, s')
-/-- an infallible writer call (`set_aa`, `set_rcode`, …) -/
-def liftU (m : M Unit) : PM Unit := liftW m
+
+/-- an infallible header operation (`set_aa`, `set_rcode`, `set_tc`, `clear_rrs`), logged -/
+def hdrOp (ev : Ev) (m : M Unit) : PM Unit := fun s =>
+  match m s.w with
+  | (.ok (), w') => (.ok (), { w := w', log := s.log ++ [ev] })
+  | (.err e, w') => (.err (PErr.ofWriter e), { w := w', log := s.log ++ [.bad] })
+  | (.panic, w') => (.panic, { w := w', log := s.log ++ [.bad] })
+
+def setAa (b : Bool) : PM Unit := hdrOp (.aa b) (Writer.setAa b)
+def setRcode (r : Nat) : PM Unit := hdrOp (.rcode r) (Writer.setRcode r)
+def setTc (b : Bool) : PM Unit := hdrOp (.tc b) (Writer.setTc b)
+def clearRrs : PM Unit := hdrOp .clear Writer.clearRrs
 end PM
 
 /-- run a writer call that is lent a fresh/extended `HintPointerVec`; returns the vector -/
@@ -100,6 +135,30 @@ def withHv (hv : HV) (m : M Unit) : M HV := fun s =>
   | (.ok (), s') => (.ok (s'.hv.getD hv), { s' with hv := none })
   | (.err e, s') => (.err e, { s' with hv := none })
   | (.panic, s') => (.panic, { s' with hv := none })
+
+/-- one record-adding writer call, logged. `none` = the call was optional and did not fit
+    (`execute_allowing_truncation` swallowed `Truncation`: the rest of that closure is skipped);
+    every other error is `?`-propagated (`impl From<writer::Error> for ProcessingError`). -/
+def PM.addCall (ev : AddEv) (m : M HV) : PM (Option HV) := fun s =>
+  match m s.w with
+  | (.ok hv, w') => (.ok (some hv), { w := w', log := s.log ++ [.add { ev with res := .ok () }] })
+  | (.err e, w') =>
+    let s' : PS := { w := w', log := s.log ++ [.add { ev with res := .err e }] }
+    if ev.optional ∧ e = .Truncation then (.ok none, s') else (.err (PErr.ofWriter e), s')
+  | (.panic, w') => (.panic, { w := w', log := s.log ++ [.add { ev with res := .panic }] })
+
+/-- `response.add_{answer,authority,additional}_rrset(hinted owner, type, class, ttl, rdatas, hv)` -/
+def PM.addRrs (optional : Bool) (sec : RrSection) (hint : Hint) (owner : WName) (ty cls ttl : Nat)
+    (rdatas : List (List UInt8)) : PM (Option HV) :=
+  PM.addCall ⟨sec, owner, ty, cls, ttl, rdatas, optional, .ok ()⟩
+    (withHv [] (addRrsetOp sec hint owner ty cls ttl rdatas))
+
+/-- `response.add_{answer,authority}_rr(hinted owner, type, class, ttl, rdata, None)?` -/
+def PM.addRr1 (sec : RrSection) (hint : Hint) (owner : WName) (ty cls ttl : Nat)
+    (rdata : List UInt8) : PM Unit := do
+  let _ ← PM.addCall ⟨sec, owner, ty, cls, ttl, [rdata], false, .ok ()⟩
+    (withHv [] (addRrOp sec hint owner ty cls ttl rdata))
+  pure ()
 
 /-- `HintedName::from_hint_pointer_vec(vec, index, name).hint` -/
 def hintFrom (hv : HV) (index : Nat) : Hint :=
@@ -126,35 +185,34 @@ def readNameFromRdata (rdata : List UInt8) (start : Nat) : PM WName :=
     | some (n, []) => pure n
     | _ => PM.fail .servFail
 
-/-- `execute_allowing_truncation` -/
-def executeAllowingTruncation (m : M Unit) : PM Unit := fun s =>
-  match m s with
-  | (.ok (), s') => (.ok (), s')
-  | (.err .Truncation, s') => (.ok (), s')
-  | (.err e, s') => (.err (PErr.ofWriter e), s')
-  | (.panic, s') => (.panic, s')
-
 /-! ### helpers of query.rs -/
 
-/-- `add_additional_addresses(zone, owner, search_below_cuts, response)` -/
-def addAdditionalAddresses (z : Zone.Zone) (hint : Hint) (owner : WName) (sbc : Bool) : M Unit := fun s =>
+/-- the AAAA half of `add_additional_addresses` (class IN only) -/
+def addAaaa (z : Zone.Zone) (hint : Hint) (owner : WName) (optional : Bool) (aaaa : Option Zone.Rrset) : PM Unit :=
+  if z.cls = Gen.CLASS_IN then
+    match aaaa with
+    | some r => do
+      let _ ← PM.addRrs optional .additional hint owner Gen.T_AAAA Gen.CLASS_IN r.ttl r.rdatas
+      pure ()
+    | none => pure ()
+  else pure ()
+
+/-- `add_additional_addresses(zone, owner, search_below_cuts, response)`; `optional` = the call is
+    wrapped in `execute_allowing_truncation` (a `Truncation` from the A RRset ends the closure:
+    the AAAA RRset is then not attempted) -/
+def addAdditionalAddresses (z : Zone.Zone) (hint : Hint) (owner : WName) (sbc optional : Bool) : PM Unit :=
   match Zone.lookupAddrs z (fold owner) ⟨false, sbc⟩ with
   | .ok (.found a aaaa _) =>
-    let step1 : M Hint := match a with
-      | some r => do
-        addRrsetOp .additional hint owner Gen.T_A z.cls r.ttl r.rdatas
-        pure Hint.mostRecentOwner
-      | none => pure hint
-    (do
-      let h ← step1
-      if z.cls = Gen.CLASS_IN then
-        match aaaa with
-        | some r => addRrsetOp .additional h owner Gen.T_AAAA Gen.CLASS_IN r.ttl r.rdatas
+    match a with
+    | some r =>
+      PM.addRrs optional .additional hint owner Gen.T_A z.cls r.ttl r.rdatas >>= fun o =>
+        match o with
+        | some _ => addAaaa z Hint.mostRecentOwner owner optional aaaa   -- `owner = HintedName::new(MostRecentOwner, ..)`
         | none => pure ()
-      else pure ()) s
-  | .ok _ => (.ok (), s)
-  | .err _ => (.ok (), s)
-  | .panic => (.panic, s)
+    | none => addAaaa z hint owner optional aaaa
+  | .ok _ => pure ()
+  | .err _ => pure ()
+  | .panic => PM.panic
 
 /-- the three loops of `do_additional_section_processing` -/
 def additionalLoop (z : Zone.Zone) (start : Nat) (hv : Option HV) : List (List UInt8) → Nat → PM Unit
@@ -164,7 +222,7 @@ def additionalLoop (z : Zone.Zone) (start : Nat) (hv : Option HV) : List (List U
     let hint := match hv with
       | some v => hintFrom v index
       | none => Hint.none
-    executeAllowingTruncation (addAdditionalAddresses z hint name false)
+    addAdditionalAddresses z hint name false true
     additionalLoop z start hv rest (index + 1)
 
 /-- `do_additional_section_processing` -/
@@ -176,21 +234,21 @@ def doAdditionalSectionProcessing (z : Zone.Zone) (rrType : Nat) (rrset : Zone.R
   else if rrType = T "SRV" then additionalLoop z 6 hv rrset.rdatas 0
   else pure ()
 
-/-- `read_soa_minimum` -/
+/-- `read_soa_minimum`: `Name::validate_uncompressed` twice (the lengths of MNAME and RNAME), then
+    exactly four octets at offset 16 after them. (`WName.parse` is the structural twin of
+    `Name::validate_uncompressed`: same acceptance condition, the rest of the octets instead of
+    the length.) -/
 def readSoaMinimum (rdata : List UInt8) : PM Nat :=
-  let b : Bytes := rdata.toArray
-  match Wire.validateUncompressed b false with
-  | .ok mlen =>
-    match Wire.validateUncompressed (b.extract mlen b.size) false with
-    | .ok rlen =>
-      if mlen + rlen + 16 > rdata.length then PM.fail .servFail
+  match WName.parse rdata with
+  | some (_, r1) =>
+    match WName.parse r1 with
+    | some (_, r2) =>
+      if 16 > r2.length then PM.fail .servFail
       else
-        let rest := rdata.drop (mlen + rlen + 16)
+        let rest := r2.drop 16
         if rest.length = 4 then pure (be32 rest.toArray 0) else PM.fail .servFail
-    | .err _ => PM.fail .servFail
-    | .panic => PM.panic
-  | .err _ => PM.fail .servFail
-  | .panic => PM.panic
+    | none => PM.fail .servFail
+  | none => PM.fail .servFail
 
 /-- `add_negative_caching_soa` -/
 def addNegativeCachingSoa (z : Zone.Zone) : PM Unit :=
@@ -202,7 +260,7 @@ def addNegativeCachingSoa (z : Zone.Zone) : PM Unit :=
     | rd :: _ => do
       let minimum ← readSoaMinimum rd
       let ttl := Nat.min (ttlFrom minimum) rrset.ttl
-      PM.liftW (addRrOp .authority .none (unfold z.apex) (T "SOA") z.cls ttl rd)
+      PM.addRr1 .authority .none (unfold z.apex) (T "SOA") z.cls ttl rd
 
 /-- the classification loop of `do_referral`: (index, nsdname) pairs, glue first -/
 def classifyNs (child : WName) : List (List UInt8) → Nat → PM (List (Nat × WName) × List (Nat × WName))
@@ -212,14 +270,21 @@ def classifyNs (child : WName) : List (List UInt8) → Nat → PM (List (Nat × 
     let (g, a) ← classifyNs child rest (index + 1)
     if NameL.eqOrSubdomainOf (fold n) (fold child) then pure ((index, n) :: g, a) else pure (g, (index, n) :: a)
 
-/-- `do_referral` -/
+/-- the two `for (index, nsdname) in …` loops of `do_referral` -/
+def glueLoop (z : Zone.Zone) (hv : HV) (optional : Bool) : List (Nat × WName) → PM Unit
+  | [] => pure ()
+  | p :: rest => do
+    addAdditionalAddresses z (hintFrom hv p.1) p.2 true optional
+    glueLoop z hv optional rest
+
+/-- `do_referral`: the NS RRset, then the mandatory glue (never inside
+    `execute_allowing_truncation`), then the optional addresses (always inside it) -/
 def doReferral (z : Zone.Zone) (child : NameL.Name) (ns : Zone.Rrset) : PM Unit := do
   let childW := unfold child
-  let hv ← PM.liftW (withHv [] (addRrsetOp .authority .none childW (T "NS") z.cls ns.ttl ns.rdatas))
+  let hv ← PM.addRrs false .authority .none childW (T "NS") z.cls ns.ttl ns.rdatas
   let (glues, additionals) ← classifyNs childW ns.rdatas 0
-  glues.forM (fun (p : Nat × WName) => PM.liftW (addAdditionalAddresses z (hintFrom hv p.1) p.2 true))
-  additionals.forM (fun (p : Nat × WName) =>
-    executeAllowingTruncation (addAdditionalAddresses z (hintFrom hv p.1) p.2 true))
+  glueLoop z (hv.getD []) false glues
+  glueLoop z (hv.getD []) true additionals
 
 /-- `follow_cname_1` + `follow_cname_2`, as one recursion; `fuel` bounds the number of links
     (`owners_seen` is an `ArrayVec` of capacity `MAX_CNAME_CHAIN_LEN - 1`, so the recursion is at
@@ -239,12 +304,12 @@ def followCname (z : Zone.Zone) (qname : WName) (rrType : Nat) :
           let (hint, owner) := match ownersSeen.getLast? with
             | some o => (Hint.mostRecentNameInRdata, o)
             | none => (Hint.qname, qname)
-          PM.liftW (addRrOp .answer hint owner (T "CNAME") z.cls cnameRrset.ttl cname.wire)
+          PM.addRr1 .answer hint owner (T "CNAME") z.cls cnameRrset.ttl cname.wire
           -- step 2: re-run the query with the CNAME as the new QNAME, in the same zone
           match Zone.lookup z (fold cname) rrType ⟨false, false⟩ with
           | .ok (.found found _) => do
-            let hv ← PM.liftW (withHv [] (addRrsetOp .answer .mostRecentNameInRdata cname rrType z.cls found.ttl found.rdatas))
-            doAdditionalSectionProcessing z rrType found (some hv)
+            let hv ← PM.addRrs false .answer .mostRecentNameInRdata cname rrType z.cls found.ttl found.rdatas
+            doAdditionalSectionProcessing z rrType found hv
           | .ok (.cname next _) =>
             if ownersSeen.length < Gen.MAX_CNAME_CHAIN_LEN - 1 then
               followCname z qname rrType fuel next (ownersSeen ++ [cname])
@@ -252,7 +317,7 @@ def followCname (z : Zone.Zone) (qname : WName) (rrType : Nat) :
           | .ok (.referral child ns) => doReferral z child ns
           | .ok (.noRecords _) => addNegativeCachingSoa z
           | .ok .nxDomain => do
-            PM.liftU (setRcode (RC "NXDOMAIN"))
+            PM.setRcode (RC "NXDOMAIN")
             addNegativeCachingSoa z
           | .ok .wrongZone => pure ()
           | .err _ => pure ()
@@ -261,24 +326,24 @@ def followCname (z : Zone.Zone) (qname : WName) (rrType : Nat) :
 
 /-- `do_cname` -/
 def doCname (z : Zone.Zone) (qname : WName) (cnameRrset : Zone.Rrset) (rrType : Nat) : PM Unit := do
-  PM.liftU (setAa true)
+  PM.setAa true
   followCname z qname rrType (Gen.MAX_CNAME_CHAIN_LEN + 1) cnameRrset []
 
 /-- `answer` -/
 def answer (z : Zone.Zone) (qname : WName) (qtype : Nat) : PM Unit :=
   match Zone.lookup z (fold qname) qtype ⟨true, false⟩ with
   | .ok (.found found _) => do
-    PM.liftU (setAa true)
-    let hv ← PM.liftW (withHv [] (addRrsetOp .answer .qname qname qtype z.cls found.ttl found.rdatas))
-    doAdditionalSectionProcessing z qtype found (some hv)
+    PM.setAa true
+    let hv ← PM.addRrs false .answer .qname qname qtype z.cls found.ttl found.rdatas
+    doAdditionalSectionProcessing z qtype found hv
   | .ok (.cname c _) => doCname z qname c qtype
   | .ok (.referral child ns) => doReferral z child ns
   | .ok (.noRecords _) => do
-    PM.liftU (setAa true)
+    PM.setAa true
     addNegativeCachingSoa z
   | .ok .nxDomain => do
-    PM.liftU (setRcode (RC "NXDOMAIN"))
-    PM.liftU (setAa true)
+    PM.setRcode (RC "NXDOMAIN")
+    PM.setAa true
     addNegativeCachingSoa z
   | .ok .wrongZone => PM.panic            -- `panic!("tried to look up a name in the wrong zone")`
   | .err _ => PM.panic
@@ -287,38 +352,45 @@ def answer (z : Zone.Zone) (qname : WName) (qtype : Nat) : PM Unit :=
 def answerAnyLoop (z : Zone.Zone) (qname : WName) : List Zone.Rrset → Nat → PM Nat
   | [], n => pure n
   | r :: rest, n => do
-    PM.liftW (addRrsetOp .answer .qname qname r.rtype z.cls r.ttl r.rdatas)
+    let _ ← PM.addRrs false .answer .qname qname r.rtype z.cls r.ttl r.rdatas
     answerAnyLoop z qname rest (n + 1)
 
 /-- `answer_any` -/
 def answerAny (z : Zone.Zone) (qname : WName) : PM Unit :=
   match Zone.lookupAll z (fold qname) ⟨true, false⟩ with
   | .ok (.found rrsets _) => do
-    PM.liftU (setAa true)
+    PM.setAa true
     let n ← answerAnyLoop z qname rrsets 0
     if n = 0 then addNegativeCachingSoa z else pure ()
   | .ok (.referral child ns) => doReferral z child ns
   | .ok .nxDomain => do
-    PM.liftU (setRcode (RC "NXDOMAIN"))
-    PM.liftU (setAa true)
+    PM.setRcode (RC "NXDOMAIN")
+    PM.setAa true
     addNegativeCachingSoa z
   | .ok .wrongZone => PM.panic
   | .err _ => PM.panic
   | .panic => PM.panic
 
-/-- `handle_non_axfr_query` -/
-def handleNonAxfrQuery (z : Zone.Zone) (qname : WName) (qtype : Nat) (tr : Transport) : M Unit := fun s =>
+/-- `handle_non_axfr_query`, on the writer plus the ghost log -/
+def handleNonAxfrQueryL (z : Zone.Zone) (qname : WName) (qtype : Nat) (tr : Transport) : PM Unit := fun s =>
   let result := if qtype = QT "ANY" then answerAny z qname s else answer z qname qtype s
   match result with
   | (.ok (), s') => (.ok (), s')
   | (.err .servFail, s') =>
-    (do setAa false; setRcode (RC "SERVFAIL"); clearRrs) s'
+    (do PM.setAa false; PM.setRcode (RC "SERVFAIL"); PM.clearRrs) s'
   | (.err .truncation, s') =>
     (do
-      clearRrs
-      if tr = Transport.tcp then do setAa false; setRcode (RC "SERVFAIL")
-      else setTc true) s'
+      PM.clearRrs
+      if tr = Transport.tcp then do PM.setAa false; PM.setRcode (RC "SERVFAIL")
+      else PM.setTc true) s'
   | (.panic, s') => (.panic, s')
+
+/-- `handle_non_axfr_query`: what the writer sees (the ghost log is dropped) -/
+def handleNonAxfrQuery (z : Zone.Zone) (qname : WName) (qtype : Nat) (tr : Transport) : M Unit := fun w =>
+  match handleNonAxfrQueryL z qname qtype tr { w := w } with
+  | (.ok (), s') => (.ok (), s'.w)
+  | (.err e, s') => (.err (match e with | .servFail => WriterErr.InvalidRdata | .truncation => WriterErr.Truncation), s'.w)
+  | (.panic, s') => (.panic, s'.w)
 
 /-- `handle_query` -/
 def handleQuery (cfg : Cfg) (question : Option (WName × Nat × Nat)) (tr : Transport) : M Unit :=
